@@ -125,15 +125,35 @@ def run(ctx):
                                    "%s uses the static %s" % (f.name, c["static"]), where_of(f, span=s["span"]))
     # the immutability argument for scopes used as parents: nobody calls set / get_mut on a Transformer scope,
     # and define writes only the own frame
+    # (which methods of LexicalScope write a frame other than the one they are called on is computed, not listed: every method is run
+    # on a three-frame chain — scopes.ancestor_writers; get_mut hands out a mutable reference into an ancestor)
+    from . import scopes as _sc
+    try:
+        writers, unfollowed = _sc.ancestor_writers(fb)
+    except (mir.AnchorMissing, Exception) as e:
+        writers, unfollowed = {}, {"*": str(e)}
+    ctx.inst("C19-global-census", "scope-methods-writing-ancestors", {"methods": sorted(writers), "unfollowed": sorted(unfollowed)})
+    mut_names = {"set", "get_mut"} | set(writers)
     for f in fb.all("lib"):
         for b, t in f.calls():
-            if callee_matches(t, "environment::LexicalScope::set", "environment::LexicalScope::get_mut"):
-                gens = " ".join((t.get("fn") or {}).get("generics", []))
-                argt = " ".join(t.get("argtys", []))
-                if "Transformer" in gens or "Transformer" in argt or ("values::Value" not in gens and "values::Value" not in argt and
-                                                                          not f.name.startswith("environment::LexicalScope::")):
-                    ctx.report("C19-global-census", "scope-mutation/" + f.name, "%s mutates a syntax scope through its parents "
-                               "(%s)" % (f.name, callee(t)), where_of(f, t))
+            c_ = callee(t) or ""
+            if not c_.startswith("environment::LexicalScope::"):
+                continue
+            meth = c_[len("environment::LexicalScope::"):]
+            gens = " ".join((t.get("fn") or {}).get("generics", []))
+            argt = " ".join(t.get("argtys", []))
+            on_syntax = "Transformer" in gens or "Transformer" in argt or ("values::Value" not in gens and "values::Value" not in argt and
+                                                                          not f.name.startswith("environment::LexicalScope::"))
+            if not on_syntax:
+                continue
+            if meth in mut_names:
+                how = ("%s on a chain F0->F1->F2: %s" % (meth, "; ".join("name bound in %s: %s in F%d" % (fd, e[0], e[1]) for fd, e in writers[meth][:2]))
+                       if meth in writers else callee(t))
+                ctx.report("C19-global-census", "scope-mutation/" + f.name, "%s mutates a syntax scope through its parents "
+                           "(%s): the outermost parent is the thread-local scope shared by every instance" % (f.name, how), where_of(f, t))
+            elif meth in unfollowed:
+                ctx.undecided("C19-global-census", "scope-mutation/" + f.name, "%s calls LexicalScope::%s on a syntax scope; whether that method "
+                              "writes the frames of its parents could not be followed (%s)" % (f.name, meth, unfollowed[meth]), where_of(f, t))
     # define writes only the frame it is called on (scope-chain table, scopes.py): with every subset of a 3-frame chain binding
     # the name, exactly one insert, into frame 0
     from . import scopes
